@@ -4754,6 +4754,24 @@ impl GlobalInferenceCtx<'_> {
                             uid: enum_uid,
                             variants,
                         } => {
+                            // inside a generic function every instantiation is an enum of its own
+                            let enum_uid = &if self.loc.comptime_args().is_some() {
+                                hir::common::instantiated_enum_uid(
+                                    *enum_uid,
+                                    variants
+                                        .iter()
+                                        .map(|variant| {
+                                            variant.ty.map_or_else(
+                                                || Ty::Void.into(),
+                                                |ty| self.tys[self.loc].meta_tys[ty],
+                                            )
+                                        })
+                                        .collect(),
+                                )
+                            } else {
+                                *enum_uid
+                            };
+
                             let mut variant_tys = Vec::with_capacity(variants.len());
 
                             let mut used_discriminants =
